@@ -14,7 +14,7 @@ SHARDS = {"quick": 16, "thorough": 16}
 META = {
     "level": "exploration",
     "technique": "runtime monitoring in virtual time: the callbacks record (virtual time, name, arguments); an acceptor derived from the server's frame log (arrival time of each frame's last byte) predicts the exact callback sequence and times; zero processing time makes any wait for further traffic or a select timeout visible as a positive delay",
-    "claim": "For all server traffic histories up to length 3 (quick, plus sampled length 4) / 5 (thorough) over text, binary, 2- and 3-fragment messages, ping and pong, delivered one segment per frame, as one burst in a single segment followed by 50 s of silence, and byte-wise, over plain (Dispatcher) and TLS (SSLDispatcher, burst = one TLS record) transports, with sampled (quick) / all (thorough, per history class) subsets of callbacks set and each callback raising in turn: on_open fired once and first, every message reached on_data (with its type) and on_message exactly once in order with str/bytes, every ping/pong reached on_ping/on_pong with its payload, each at the virtual time its last byte arrived, and a raising callback was reported to on_error without stopping later events.",
+    "claim": "For all server traffic histories up to length 3 (quick, plus sampled length 4) / 5 (thorough) over text, binary, 2- and 3-fragment messages, ping and pong, delivered one segment per frame, as one burst in a single segment followed by 50 s of silence, as two segments cut inside the first payload, and byte-wise, over plain (Dispatcher) and TLS (SSLDispatcher, burst = one TLS record) transports, with sampled (quick) / all (thorough, per history class) subsets of callbacks set and each callback raising in turn: on_open fired once and first, every message reached on_data (with its type) and on_message exactly once in order with str/bytes, every ping/pong reached on_ping/on_pong with its payload, each at the virtual time its last byte arrived, and a raising callback was reported to on_error without stopping later events.",
     "trusted": "virtual clock; simulated TLS socket models record buffering (pending() data invisible to the selector); acceptor in this file",
     "rule": "case = (history, segmentation, transport, callback subset, raising callback); distinct by that tuple; non-trivial when the history has >= 2 events or is delivered as a burst/byte-wise",
     "exhaustive": {"quick": False, "thorough": False},
@@ -75,6 +75,14 @@ def make_script(evs, seg):
         script.append((1.0, "frames", data))
         times = [1.0] * len(evs)
         end = 51.0
+    elif seg == "cut-in-payload":
+        # segment 1 ends inside the first frame's payload; segment 2 carries the rest of it and every following frame
+        data = b"".join(fr for ev in evs for fr in ev["frames"])
+        first = evs[0]["frames"][0]
+        cut = max(3, len(first) - max(1, (len(first) - 2) // 2))
+        script.append((1.0, "segments", [data[:cut], data[cut:]]))
+        times = [1.0] * len(evs)
+        end = 51.0
     else:
         data = b"".join(fr for ev in evs for fr in ev["frames"])
         script.append((1.0, "frames", data, list(range(1, len(data)))))
@@ -118,7 +126,7 @@ def run(res, tier, seed, shard, nshards):
     hists += [tuple(random.Random(i).choice(KINDS) for _ in range(random.Random(i).randrange(5, 10))) for i in range(40 if quick else 400)]
     jobs = []
     for hi, h in enumerate(hists):
-        for seg in ("per-frame", "burst", "bytewise"):
+        for seg in ("per-frame", "burst", "bytewise", "cut-in-payload"):
             for tls in (False, True):
                 jobs.append((h, seg, tls, None, None))
     # callback subsets on a fixed rich history
@@ -183,7 +191,7 @@ def one(res, W, rng, hist, seg, tls, enabled, raising_name):
     case = {"history": hist, "segmentation": seg, "tls": tls, "callbacks": sorted(enabled), "raising": raising_name}
     res.case((hist, seg, tls, tuple(sorted(enabled)), raising_name), nontrivial=len(hist) >= 2 or seg != "per-frame")
     res.count("tls_runs" if tls else "plain_runs")
-    if seg == "burst":
+    if seg in ("burst", "cut-in-payload"):
         res.count("burst_runs")
 
     def bad(kind, detail, **kw):
@@ -235,6 +243,11 @@ def one(res, W, rng, hist, seg, tls, enabled, raising_name):
                 bad("on_error-argument", f"expected the exception raised by the user callback, got {oa!r}")
                 ok = False
                 break
+        elif ea == oa and any(type(x) is not type(y) for x, y in zip(ea, oa)):
+            bad("callback-arguments", f"{en}: argument types {[type(y).__name__ for y in oa]}, expected {[type(x).__name__ for x in ea]} (text as str, binary as bytes)",
+                callback=en, what="argument-type", fragmented=("frag" in "".join(hist)))
+            ok = False
+            break
         elif ea != oa:
             what = "data-type" if en == "on_data" and len(ea) == 3 and len(oa) == 3 and ea[0] == oa[0] and ea[1] != oa[1] else "arguments"
             bad("callback-arguments", f"{en}: expected {ea!r}, got {oa!r}", callback=en, what=what, fragmented=("frag" in "".join(hist)))
